@@ -47,6 +47,11 @@ type Options struct {
 	KeepBackup  int
 	OptFsync    bool
 	WalSegment  int64 // wal.SegmentSizeBytes (default 256 KiB: the shipped 64 MiB preallocation dominates run time)
+	// OldPartitions > 0: the namespace existed before with this (other) partition
+	// count; every machine's first process still runs that incarnation's
+	// partitions when the new ones are created, one partition at a time (a
+	// namespace deleted and re-created by the operator)
+	OldPartitions int
 }
 
 type Msg struct {
@@ -245,6 +250,42 @@ func (cl *Cluster) boot(m *Machine) error {
 	m.tr = &simTransport{cl: cl, self: m.Idx}
 	m.Parts = map[int]*node.NamespaceNode{}
 	m.Incarn++
+	old := map[int]*node.NamespaceNode{}
+	if opt.OldPartitions > 0 && m.Incarn == 1 {
+		for p := 0; p < opt.OldPartitions; p++ {
+			conf := cl.nsConf(p)
+			conf.PartitionNum = opt.OldPartitions
+			conf.Replicator = 1
+			conf.RaftGroupConf.GroupID = 800000 + uint64(p)
+			rid := 800000 + uint64(p*100+m.Idx)
+			conf.RaftGroupConf.SeedNodes = []node.ReplicaInfo{{NodeID: cl.NodeID(m.Idx), ReplicaID: rid,
+				RaftAddr: "http://127.0.0.1:" + strconv.Itoa(m.Idx+1)}}
+			nn, err := nsm.InitNamespaceNode(conf, rid, false)
+			if err != nil {
+				return err
+			}
+			nn.Node.VerifSetTransport(m.tr)
+			if err := nn.Start(false); err != nil {
+				return err
+			}
+			old[p] = nn
+		}
+		synctest.Wait()
+	}
+	removeOld := func(p int) {
+		if nn := old[p]; nn != nil {
+			// what the data node does for a partition of a deleted namespace
+			nn.Close()
+			nn.Destroy()
+			synctest.Wait()
+			delete(old, p)
+		}
+	}
+	defer func() {
+		for p := 0; p < opt.OldPartitions; p++ {
+			removeOld(p)
+		}
+	}()
 	for p := 0; p < opt.Partitions; p++ {
 		hosted := false
 		for _, h := range cl.Hosts(p) {
@@ -255,6 +296,7 @@ func (cl *Cluster) boot(m *Machine) error {
 		if !hosted {
 			continue
 		}
+		removeOld(p)
 		nn, err := nsm.InitNamespaceNode(cl.nsConf(p), ReplicaID(p, m.Idx), false)
 		if err != nil {
 			return err
